@@ -139,6 +139,8 @@ def run(ctx, rep):
             rep.violation('C06.3', 'C06.3:%s:l2slice' % m, '',
                           'the COW merge %s can run without the L2 slice write guard: the new mapping can be flushed or '
                           'used by another task before the merged data is in place' % m)
+    from . import evict
+    evict.report(f, rep, 'C06.8', evict.find_pops(f, P))
     # C06.5
     # the eviction routine: removes an entry from the map and hands it to its caller
     from ..guard import Deps
